@@ -372,6 +372,19 @@ def result_entries():
         T2 = ref.rt(ref.rot2(a), (1.0, 2.0))
         E.append(('base.tr2xyt/%g' % a, lambda u, T2=T2: b.tr2xyt(T2.copy(), unit=u)[2]))
         E.append(('SO2.theta/%g' % a, lambda u, a=a: sm.SO2(ref.rot2(a)).theta(unit=u)))
+    # the unit given positionally (it is the same parameter)
+    Rg, qg = Rs[0][1], ref.r2q_ref(Rs[0][1])
+    E.append(('base.tr2rpy/positional', lambda u: b.tr2rpy(Rg.copy(), u)))
+    E.append(('base.tr2eul/positional', lambda u: b.tr2eul(Rg.copy(), u)))
+    E.append(('base.tr2angvec/positional', lambda u: b.tr2angvec(Rg.copy(), u)[0]))
+    E.append(('base.tr2xyt/positional', lambda u: b.tr2xyt(ref.rt(ref.rot2(0.3), (1.0, 2.0)), u)[2]))
+    E.append(('SO3.rpy/positional', lambda u: sm.SO3(Rg.copy()).rpy(u)))
+    E.append(('SO3.eul/positional', lambda u: sm.SO3(Rg.copy()).eul(u)))
+    E.append(('SO3.angvec/positional', lambda u: sm.SO3(Rg.copy()).angvec(u)[0]))
+    E.append(('UnitQuaternion.rpy/positional', lambda u: sm.UnitQuaternion(qg).rpy(u)))
+    E.append(('UnitQuaternion.eul/positional', lambda u: sm.UnitQuaternion(qg).eul(u)))
+    E.append(('UnitQuaternion.angvec/positional', lambda u: sm.UnitQuaternion(qg).angvec(u)[0]))
+    E.append(('SO2.theta/positional', lambda u: sm.SO2(ref.rot2(0.3)).theta(u)))
     # the same accessors on objects holding several values
     for M in (2, 3, 4):
         angs = [0.3, -2.5, 1.2, 3.0][:M]
@@ -424,6 +437,24 @@ def units(ctx):
         fa, fb = np.array(_flat(canon(r)), dtype=float), np.array(_flat(canon(rf)), dtype=float)
         if fa.shape != fb.shape or (fa.size and np.abs(fa - fb).max() > 1e-6 * max(1.0, float(np.abs(fb).max()))):
             ctx.fail(cid, site.split('/')[0], 'mismatch', P, 'angle %d given as %s differs from the same angle as float' % (av, tn))
+    # a vector of joint values for a multi-valued twist must have one value per twist (or the twist one value): any other length is rejected
+    import spatialmath as sm
+    for cn, vals in (('Twist3', [np.r_[1.0, 2, 3, 0.3, -0.2, 0.1], np.r_[0, 0, 0, 0, 0, 1.0], np.r_[1.0, 0, 0, 0, 0, 0], np.r_[0, 1.0, 0, 0.5, 0, 0]]),
+                     ('Twist2', [np.r_[1.0, 2, 0.3], np.r_[0, 0, 1.0], np.r_[1.0, 0, 0], np.r_[0, 1.0, -0.5]])):
+        C_ = getattr(sm, cn)
+        for N, L, form in itertools.product((2, 3, 4), range(0, 9), ('list', 'tuple', '1d')):
+            if L == N or L == 1:
+                continue
+            cid = 'C15/thetalen/%s/N=%d/len=%d/%s' % (cn, N, L, form)
+            if not ctx.want(cid):
+                continue
+            ctx.case(cid, key=cid)
+            th = [0.1 * (j + 1) for j in range(L)]
+            arg = th if form == 'list' else (tuple(th) if form == 'tuple' else np.array(th))
+            ok, r = call(lambda: C_([v.copy() for v in vals[:N]]).exp(arg))
+            if ok:
+                ctx.fail(cid, cn + '.exp', 'no-raise', dict(entry=cn + '.exp', what='length', N=N, len=L, form=form),
+                         '%d twists with a %s of %d joint values returned %s' % (N, form, L, type(r).__name__ + ('[%d]' % len(r.data) if hasattr(r, 'data') else '')))
     for site, f in angle_entries():
         for bad in ('grad', 'degrees', 'DEG', ''):
             cid = 'C15/badunit/%s/%s' % (site, bad or 'empty')
